@@ -1,21 +1,24 @@
 (* TransposePairPass (C02): a faithful model of remove_redundant_transpose_pairs_ir: the COMPLETE decision of its
    while-changed loop, in the order of the Python tests:
-     phase A ("Pass -1")   Add chains between Transposes p ... Transposes q           -> action TAddChain   (modelled)
+     phase A ("Pass -1")   Add chains between Transposes p ... Transposes q           -> action TAddChain   (PROVED in TransposeRegion.v)
      phase B ("Pass -0.5") inverse Transposes around an elementwise DAG with several
-                           Transpose inputs                                            -> action TForest     (modelled)
-     phase C ("Pass 0")    Transpose T1 -> elementwise DAG -> inverse Transpose T2     -> action TDag        (modelled; PROVED for the direct pair, es = [])
+                           Transpose inputs                                            -> action TForest     (PROVED in TransposeRegion.v, but for a
+                                                                                          CastLike member whose type operand is a region value)
+     phase C ("Pass 0")    Transpose T1 -> elementwise DAG -> inverse Transpose T2     -> action TDag        (PROVED for the direct pair, es = [];
+                                                                                          with members the forest phase, which runs first, subsumes it)
      phase D, case 1       Transpose T1 -> single-consumer chain of <= 7
                            ALLOWED_ELEMWISE nodes -> inverse Transpose T2              -> action TChain      (PROVED)
      phase D, case 2       Transpose T1 with several consumers, one of them an
                            inverse Transpose T2: only T2 is bypassed                   -> action TMulti      (PROVED)
-   and the rewrites (replace_input_with on selected nodes, replace_all_uses_with, removals).  Soundness is proved for
-   every admissible annotated SSA graph over tensors of any element type for the action kinds marked PROVED
-   ([proved_kind]); [transpose_pair_pass_sound] covers every run of the pass whose actions are all of these kinds.
+   and the rewrites (replace_input_with on selected nodes, replace_all_uses_with, removals).  This file proves the kinds
+   of [proved_kind] (phases C, D); TransposeRegion.v proves the region phases A, B and the pass for every graph admissible
+   when it starts ([proved_kind_all], [transpose_pair_pass_sound_start]).
    Encoding (harness/c02_passes.py): n_op = operator name for domain "", "dom::op" otherwise ("ai.onnx::op" is
    normalised by [op_type], as _op_type does); n_attrs = 1 :: perm for a node with an INTS attribute perm, [] without.
    Domain restrictions of the MODEL, for the PROVED kinds only (they hold in every schema-valid acyclic ONNX graph; the
-   model takes no action otherwise): T1, T2 and chain members have exactly one output, chain members have no nested
-   graphs, and src, T1's output, the chain outputs and T2's output are pairwise distinct names. *)
+   model takes no action otherwise): T1, T2 and chain members have exactly one output, chain and region members and the
+   Transposes of a region have no nested graphs ([no_caps]), and src, T1's output, the chain outputs and T2's output are
+   pairwise distinct names. *)
 From Coq Require Import ZArith String List Bool Arith Lia.
 From J2O Require Import PyLib Tensor Graph Redirect Preserve Reshape ElemCommute ChainSim ReshapePairPass ChainFacts C02Opt ElemSem.
 From J2OGen Require Import GenCast GenOpt.
